@@ -14,6 +14,8 @@ use crate::wire::*;
 use crate::zoo::*;
 use asn1rs::prelude::*;
 
+pub static DDE_DESCRIPTIONS: std::sync::atomic::AtomicU64 = std::sync::atomic::AtomicU64::new(0);
+
 pub const ALLOC_BASE: usize = 32 << 20;
 pub const ALLOC_PER_INPUT_BYTE: usize = 8192;
 
@@ -61,6 +63,13 @@ fn decode_stream(bytes: &[u8], bit_len: usize, plan: &[usize], extra_after_failu
             Ok(Err(e)) => {
                 let mut h = Fnv::new();
                 h.str(&kind_full(e.kind()));
+                #[cfg(feature = "dde")]
+                {
+                    // informational: with the feature on, an Err from Reader::read carries a description
+                    if !e.scope_description().is_empty() {
+                        DDE_DESCRIPTIONS.fetch_add(1, std::sync::atomic::Ordering::Relaxed);
+                    }
+                }
                 Out::Err(format!("{}#{:08x}", kind_name(e.kind()), h.0 as u32))
             }
             Err(pi) => Out::Panic(pi.sig()),
@@ -274,6 +283,11 @@ pub fn run_uper(ctx: &mut RunCtx<'_>, outcomes_only: bool) -> Option<Violation> 
             o.push(format!("{} {} {:?} pos={} len={} rem_panic={:?}", i, ops.name, at.out, at.pos, at.len, at.remaining_panicked));
         }
         if outcomes_only {
+            ctx.counters.inc(match &at.out {
+                Out::Ok(_) => "c19.read_ok",
+                Out::Err(_) => "c19.read_err",
+                Out::Panic(_) => "c19.read_panic",
+            });
             continue;
         }
         ctx.counters.inc(match &at.out {
@@ -355,6 +369,15 @@ pub fn run_uper(ctx: &mut RunCtx<'_>, outcomes_only: bool) -> Option<Violation> 
         }
     }
     ctx.nontrivial = !applied.is_empty() || xtype;
+    if outcomes_only {
+        ctx.nontrivial = !ra.is_empty();
+        ctx.counters.inc(if cfg!(feature = "dde") { "build.descriptive-deserialize-errors=on" } else { "build.descriptive-deserialize-errors=off" });
+        let d = DDE_DESCRIPTIONS.swap(0, std::sync::atomic::Ordering::Relaxed);
+        ctx.counters.add("probe.dde_error_carries_description", d);
+        if applied.is_empty() && !xtype {
+            ctx.counters.inc("probe.fault_free_delivery_compared");
+        }
+    }
     if applied.iter().any(|a| a.kind == "W-TRUNC-LEN" || a.kind == "W-TRUNC-BYTES") {
         ctx.counters.inc("probe.truncated_delivery");
     }
